@@ -20,26 +20,37 @@ def _corruptions(trace):
         for key, val in rec.items():
             if isinstance(val, list) and val and all(isinstance(x, int) and not isinstance(x, bool) for x in val) and key not in ('shape',):
                 t = copy.deepcopy(trace)
-                t[k][key] = [val[0] + 1] + list(val[1:])
-                yield f'{rec.get("ev")}.{key}[0]: {val[0]} -> {val[0] + 1}', t
-                break
+                t[k][key] = list(val[:-1]) + [val[-1] + 1]
+                yield f'{rec.get("ev")}.{key}[-1]: {val[-1]} -> {val[-1] + 1}', t
+            elif isinstance(val, int) and not isinstance(val, bool) and key not in ('id', 'seed', 'tid', 'n', 'L', 'd', 'm', 'r', 'a', 'b'):
+                t = copy.deepcopy(trace)
+                t[k][key] = val + 1
+                yield f'{rec.get("ev")}.{key}: {val} -> {val + 1}', t
 
 
-def run(ctx, module, tag, traces, bad, runner, max_variants=6):
+def run(ctx, module, tag, traces, bad, runner, max_variants=12):
     """runner(list of traces) -> {index: diagnostics} validates with the full specification"""
     st = ctx.notes.setdefault('binding_selftest', {})
     if module in st or ctx.replay is not None:
         return
-    variants = []
-    for i, tr in enumerate(traces):
+    # candidates from traces spread over the whole run, one variant per kind of corrupted field (event, key)
+    by_kind = {}
+    step = max(1, len(traces) // 60)
+    for i in range(0, len(traces), step):
+        tr = traces[i]
         if i in bad or any(r.get('ev') in ('hook_error', 'raise') for r in tr if isinstance(r, dict)):
             continue
         for desc, t in _corruptions(tr):
-            variants.append((desc, t))
-            if len(variants) >= max_variants:
-                break
-        if len(variants) >= max_variants or i > 50:
-            break
+            kind = desc.split(':')[0]
+            by_kind.setdefault(kind, []).append((desc, t))
+    variants = []
+    kinds = sorted(by_kind)
+    rnd = 0
+    while len(variants) < max_variants and any(len(by_kind[k]) > rnd for k in kinds):
+        for k in kinds:
+            if len(by_kind[k]) > rnd and len(variants) < max_variants:
+                variants.append(by_kind[k][-1 - rnd])          # later traces are usually the larger ones
+        rnd += 1
     if not variants:
         st[module] = dict(variants=0, rejected=0, note='no corruptible field found')
         return
